@@ -5,6 +5,7 @@ open Tw_io
 open Res
 open Varint
 open Snap
+open SnapCost
 
 let nreg = 6
 
@@ -165,11 +166,37 @@ let run_script (cmds : string list) : string =
   (try List.iter step cmds with Dead _ -> ());
   Buffer.contents out
 
+(* cost mode (DRV_SNAP_COST set; used by the harness itself, C11): one reader call per line on the
+   cost-instrumented twins of Model/SnapCost.v; prints the model's high-water mark in words, the
+   number the harness holds the allocation meter of the real code against.
+     ri <ints> | rb <hex> | rri <ints> | rrb <hex>        Snap / RawSnap readers
+     dri <table> <ints> | drb <table> <hex>                Delta readers
+     apply <snapshot ints> <table> <delta ints>            Snap::read_with_delta of the two values read
+   output: <peak words>:<ok|err|panic|hang>, or "-" when the operands of apply are not accepted *)
+let run_cost (fields : string list) : string =
+  let cmd = String.concat "\t" fields in
+  let toks = List.filter (fun x -> x <> "") (split_on ' ' cmd) in
+  let show ((res, _), m) =
+    Printf.sprintf "%d:%s" (int_of_z m.m_peak)
+      (match res with Ok _ -> "ok" | Err _ -> "err" | Panic _ -> "panic" | OutOfFuel -> "hang") in
+  match toks with
+  | ["ri"; ints] -> show (snap_read_from_ints_cost (ints_of ints))
+  | ["rb"; h] -> show (snap_read_bytes_cost (unhex h))
+  | ["rri"; ints] -> show (raw_read_from_ints_cost (ints_of ints))
+  | ["rrb"; h] -> show (raw_read_bytes_cost (unhex h))
+  | ["dri"; t; ints] -> show (delta_read_from_ints_cost (table_of t) (ints_of ints))
+  | ["drb"; t; h] -> show (delta_read_bytes_cost (table_of t) (unhex h))
+  | ["apply"; sints; t; dints] ->
+    (match snap_read_from_ints (ints_of sints), delta_read_from_ints (table_of t) (ints_of dints) with
+     | (Ok s, _), (Ok d, _) -> show (snap_read_with_delta_cost s d)
+     | _ -> "-")
+  | _ -> failwith ("unknown cost command " ^ cmd)
+
 (* deep (non-tail) recursion of the extracted list functions on 64 KiB snapshots needs more
    than the default 8 MiB stack: re-run this program once under a raised soft limit *)
 let () =
   match Sys.getenv_opt "DRV_SNAP_BIGSTACK" with
-  | Some _ -> main_loop run_script
+  | Some _ -> if Sys.getenv_opt "DRV_SNAP_COST" <> None then main_loop run_cost else main_loop run_script
   | None ->
     let cmd = Printf.sprintf
         "ulimit -s unlimited 2>/dev/null || ulimit -s 1000000 2>/dev/null || ulimit -s 200000 2>/dev/null; DRV_SNAP_BIGSTACK=1 exec %s"
